@@ -45,13 +45,13 @@ Proof.
   - eapply maybe_send_B; eauto.
   - inversion H; subst; reflexivity.
 Qed.
-Lemma run_callback_B rep parts s ag s' ag' :
-  run_callback rep parts s ag = (s', ag') -> bview s' = bview s.
+Lemma run_callback_B rep parts fr s ag s' ag' :
+  run_callback rep parts fr s ag = (s', ag') -> bview s' = bview s.
 Proof.
   unfold run_callback. intros H. destruct (s_queue s) as [|[id cb] q]; inversion H; subst; reflexivity.
 Qed.
-Lemma handle_B rep s ag s' ag' :
-  h_paused s = negb (s_active s) -> handle rep s ag = (s', ag') -> bview s' = bview s.
+Lemma handle_B from rep s ag s' ag' :
+  h_paused s = negb (s_active s) -> handle from rep s ag = (s', ag') -> bview s' = bview s.
 Proof.
   unfold handle. intros Hp H.
   destruct (is_nil (s_queue (set_s_pending false s))).
@@ -67,7 +67,7 @@ Lemma step_B s f ag s' ag' : InvB s -> step s f ag = (s', ag') -> InvB s'.
 Proof.
   intros HB H. pose proof HB as [Hp Hs].
   destruct f as [[cb|full cb| | |r|]| | |]; cbn [step do_op] in H.
-  - destruct (s_max (set_h_next (h_next s + 1) s) <=? len (s_queue (set_h_next (h_next s + 1) s))).
+  - destruct (s_max s <=? len (s_queue s)).
     + inversion H; subst. eapply InvB_view; [|exact HB]. reflexivity.
     + apply take_next_B in H; [|exact Hp]. eapply InvB_view; [|exact HB]. rewrite H. reflexivity.
   - destruct (s_discov s).
